@@ -216,7 +216,8 @@ RawKind(o) == IF o \in {"read", "drain"} THEN "read" ELSE IF o = "read1n" THEN "
 AfterRaw(m, h) ==
   LET k == RawKind(m.l.op)
       m1 == [m EXCEPT !.s = h.s, !.l.data = h.data] IN
-  IF h.hexc = "AttributeError" THEN Unclean(m1, IF "closeunder" \in Fixes THEN "ProtocolError" ELSE "AttributeError")
+  IF h.hexc = "ValueError" THEN Unclean(m1, IF "closeunder" \in Fixes THEN "ProtocolError" ELSE "ValueError")
+  ELSE IF h.hexc = "AttributeError" THEN Unclean(m1, IF "closeunder" \in Fixes THEN "ProtocolError" ELSE "AttributeError")
   ELSE IF h.hexc # "none" THEN Unclean(m1, "ProtocolError")
   ELSE IF k # "read" /\ h.data = 0 THEN
       LET m2 == [m1 EXCEPT !.s = OrigClose(h.s)] IN
@@ -249,7 +250,8 @@ IoDone(m, bad) ==
 IoStart(m, k) ==
   LET need == NeedOf(m.s, k)
       m1 == [m EXCEPT !.l.iok = k, !.l.need = need, !.l.eof = FALSE, !.l.hfp0 = m.s.hfp] IN
-  IF Sat(need, m.s, FALSE) THEN IoDone(m1, "none")
+  IF m.s.hfp /\ m.busy THEN [m1 EXCEPT !.l.after = "IoGo", !.l.pc = "BufWait"]     \* the buffered file is locked by a read in progress
+  ELSE IF Sat(need, m.s, FALSE) THEN IoDone(m1, "none")
   ELSE IF Eager THEN LET e == EagerIo(m.s, need, FALSE) IN IoDone([m1 EXCEPT !.s = e.s, !.l.eof = e.eof], e.bad)
   ELSE Park(m1, "Recv")
 
@@ -340,7 +342,11 @@ StepAt(m) ==
          ELSE IF Sat(m1.l.need, m1.s, m1.l.eof) THEN IoDone(m1, "none") ELSE m1
     [] pc = "BufWait" ->
          LET s1 == BufClose(s) IN
-         IF m.l.after = "CatClose2" THEN Park([m EXCEPT !.s = IF s1.own THEN ConnClose(s1) ELSE s1], "CatRel")
+         IF m.l.after = "IoGo" THEN
+             \* a second reader (drain_conn from another thread) gets the lock of the buffered file it asked for
+             IF ~s.ioref THEN AfterRaw(m, [s |-> s, data |-> 0, hexc |-> "ValueError"])       \* "read of closed file"
+             ELSE IoStart([m EXCEPT !.busy = FALSE], m.l.iok)
+         ELSE IF m.l.after = "CatClose2" THEN Park([m EXCEPT !.s = IF s1.own THEN ConnClose(s1) ELSE s1], "CatRel")
          ELSE Park([m EXCEPT !.s = s1], m.l.after)
 
 StepOps == AllOps \cup {"none"}
